@@ -34,6 +34,10 @@ class _File(io.TextIOWrapper):
         if self._read_fault == 'EIO-before':
             self._fs.stats['read_raised'] += 1
             raise OSError(errno.EIO, os.strerror(errno.EIO))
+        if self._read_fault == 'ENOMEM-read':
+            # the whole-file read cannot get its buffer (a file larger than the address space the process may use)
+            self._fs.stats['read_raised'] += 1
+            raise MemoryError()
         data = super().read(size)
         if self._read_fault == 'EIO-after':
             self._fs.stats['read_raised'] += 1
